@@ -2,6 +2,11 @@
 use enumk::{c09, c11, c13, c18};
 
 fn main() {
+    let args: Vec<String> = std::env::args().collect();
+    if args.get(1).map(String::as_str) == Some("C11-find-shapes") {
+        c11::find_shapes(args.get(2).and_then(|s| s.parse().ok()).unwrap_or(32));
+        return;
+    }
     let cli = common::cli();
     match cli.id.as_str() {
         "C09" => c09::run(cli),
